@@ -38,6 +38,7 @@ func genSse() (string, error) {
 		return true
 	})
 	goStmts, selectsDone, plainSend := 0, false, false
+	selectCases, hasDefault := 0, false
 	ast.Inspect(send.Body, func(n ast.Node) bool {
 		gs, ok := n.(*ast.GoStmt)
 		if !ok {
@@ -50,6 +51,10 @@ func genSse() (string, error) {
 				hasSend, hasRecv := false, false
 				for _, c := range x.Body.List {
 					cc := c.(*ast.CommClause)
+					selectCases++
+					if cc.Comm == nil {
+						hasDefault = true
+					}
 					switch s := cc.Comm.(type) {
 					case *ast.SendStmt:
 						hasSend = true
@@ -81,6 +86,7 @@ func genSse() (string, error) {
 	s := header("cmd/templ/generatecmd/sse/server.go") + "namespace TemplVerif.Generated\n\n"
 	s += fmt.Sprintf("/-- ServeHTTP's deferred function closes the client's event channel -/\ndef sseClosesChannelOnExit : Bool := %t\n\n", closes)
 	s += fmt.Sprintf("/-- the delivery goroutine started by Send selects between the send and a done channel (and has no unconditional send) -/\ndef sseDeliverySelectsDone : Bool := %t\n\n", selectsDone)
+	s += fmt.Sprintf("/-- number of cases of the delivery goroutine's select (send, client gone - anything else lets a delivery be given up) and whether it has a default -/\ndef sseDeliverySelectCases : Nat := %d\ndef sseDeliverySelectHasDefault : Bool := %t\n\n", selectCases, hasDefault)
 	s += "end TemplVerif.Generated\n"
 	return s, nil
 }
